@@ -300,6 +300,10 @@ def cases(tier, seed):
                     # "rows" are positions: the frame may carry any index (a slice of generated data, dates, ...)
                     for ik in ("offset", "step2", "datetime", "int64"):
                         yield ("outliers", n, p, k, 5.0, ik)
+    # every (n, n_outliers) pair of realistic size: rounding of the evenly spaced grid depends on the pair
+    for n in range((9 if q else 11), (72 if q else 200) + 1):
+        for k in range(0, n + 1):
+            yield ("outliers", n, 1 + (n + k) % 3, k, 5.0)
     for w in INVALID:
         yield ("invalid", w)
 
@@ -314,7 +318,7 @@ def shards(tier, seed):
 def bounds(tier, seed):
     return {"changing": "n<=8 (quick)/10, p<=3, seeds (0,1,2,10+VERIF_SEED), all changepoint subsets, 4 parameter shapes", "anomalous": "n<=7/9, all lists of <=2 disjoint anomalies (both orders for n<=4)",
             "alternating": "n_segments<=4, segment_length<=3, p<=3, 4 (mean,variance) pairs, proportions with integral p*prop",
-            "outliers": "n<=8/10, p<=3, n_outliers 0..n, sizes (5, -2.5); for n<=6, p<=2 also frames with an offset / stepped / datetime / irregular integer index", "invalid": INVALID}
+            "outliers": "n<=8/10, p<=3, n_outliers 0..n, sizes (5, -2.5); every (n, n_outliers) pair up to n=72 (quick) / 200 with one p each; for n<=6, p<=2 also frames with an offset / stepped / datetime / irregular integer index", "invalid": INVALID}
 
 
 def dispatch(acc, c):
